@@ -1,14 +1,143 @@
 (** C12 — unresponsive validators are jailed in bounded time; responsive ones never.
-    Only statements closed by [exact]; proofs live in Valset/KeepAliveProofs.v. *)
+    Only statements closed by [exact]; proofs live in Valset/KeepAliveProofs.v.
+    Model: Valset/KeepAlive.v (the code after the F9 repair).  [run vlt ops s0 = fold_left (step vlt) ops s0];
+    histories interleave validator creation, staking status / power changes, keep-alives, requirement
+    changes, external jail / unjail, valset.Jail from other modules and blocks, without any bound.
+    [version]/[vlt] are abstract: [vlt a b] stands for [semver.Compare a b < 0]. *)
 From Coq Require Import List ZArith Bool.
 From Paloma Require Import Valset.KeepAlive Valset.KeepAliveProofs.
 From Paloma Require Gen.C12.
 Import ListNotations.
 Open Scope Z_scope.
 
-(** The flattened snapshot of last block's unjailed validators reads back as exactly the list
-    that was written, for every address byte pattern (in particular 0x2c). *)
+(** 1. Bounded-time jailing.  For every history from an empty chain (with whatever comma-joined
+    blob an earlier binary left behind), at every liveness-check height (height > 50, multiple of
+    10): a bonded / unbonding, unjailed validator [v] with no unexpired keep-alive, which was already
+    unjailed when the previous end-block ran (so it did not just become unjailed) and whose stored
+    grace start — if any — is more than 30 blocks old, is after this end-block either jailed or exempt
+    by the network-protection rules evaluated on the resulting validator set (it is the last active
+    validator, or 4·power > total bonded unjailed power).  For every address byte pattern. *)
+Theorem inactive_jailed_at_next_check :
+  forall (version : Type) (vlt : version -> version -> bool)
+         (h0 t0 : Z) (legacy : option (list Z)) (m : version) (ops : list (op version)) (v : val) (dh dt : Z),
+  let s := run vlt ops (init h0 t0 legacy m) in
+  is_check_height (height s) = true ->
+  In v (vals s) -> eligible_status (v_status v) = true -> v_jailed v = false ->
+  is_alive s (v_addr v) = false ->
+  snap_legacy s = None -> In (v_addr v) (prev_unjailed s) ->
+  in_grace s (v_addr v) = false ->
+  exists v', find_val (v_addr v) (vals (step vlt s (EndBlock dh dt))) = Some v' /\
+             (v_jailed v' = true \/ protected (vals (step vlt s (EndBlock dh dt))) v').
+Proof. exact inactive_jailed_at_next_check_proof. Qed.
+Print Assumptions inactive_jailed_at_next_check.
+
+(** 2. A validator with an unexpired keep-alive is left untouched by the end-block, in ANY state
+    (hence after any history): never jailed for inactivity. *)
+Theorem alive_never_jailed :
+  forall (version : Type) (vlt : version -> version -> bool) (s : state version) (a : addr) (dh dt : Z),
+  is_alive s a = true ->
+  find_val a (vals (step vlt s (EndBlock dh dt))) = find_val a (vals s).
+Proof. exact alive_never_jailed_proof. Qed.
+Print Assumptions alive_never_jailed.
+
+(** 2b. Neither is a validator whose grace period is running after the grace update, and nobody is
+    jailed by an end-block that is not a check height. *)
+Theorem grace_never_jailed :
+  forall (version : Type) (s s1 : state version) (a : addr),
+  update_grace s = Some s1 -> in_grace s1 a = true ->
+  find_val a (vals (fst (end_block s))) = find_val a (vals s).
+Proof. exact grace_never_jailed_proof. Qed.
+Print Assumptions grace_never_jailed.
+
+Theorem no_jailing_between_checks :
+  forall (version : Type) (vlt : version -> version -> bool) (s : state version) (dh dt : Z),
+  is_check_height (height s) = false -> vals (step vlt s (EndBlock dh dt)) = vals s.
+Proof. exact no_jailing_between_checks_proof. Qed.
+Print Assumptions no_jailing_between_checks.
+
+(** 3. Grace periods are (re)started exactly for validators that are unjailed now and were not
+    unjailed at the previous block's grace update; everybody else's entry is untouched — in every
+    history once the legacy entry is gone (it is deleted by the first end-block). *)
+Theorem grace_only_when_newly_unjailed :
+  forall (version : Type) (vlt : version -> version -> bool)
+         (h0 t0 : Z) (legacy : option (list Z)) (m : version) (ops : list (op version)) (s1 : state version) (a : addr),
+  let s := run vlt ops (init h0 t0 legacy m) in
+  snap_legacy s = None -> update_grace s = Some s1 ->
+  (In a (prev_unjailed s) -> lookup a (grace s1) = lookup a (grace s)) /\
+  (~ In a (unjailed_addrs (vals s)) -> lookup a (grace s1) = lookup a (grace s)) /\
+  (In a (unjailed_addrs (vals s)) -> ~ In a (prev_unjailed s) -> lookup a (grace s1) = Some (height s)) /\
+  prev_unjailed s1 = unjailed_addrs (vals s) /\ snap_legacy s1 = None.
+Proof. exact grace_only_when_newly_unjailed_proof. Qed.
+Print Assumptions grace_only_when_newly_unjailed.
+
+(** 4. The flattened snapshot reads back as exactly the list that was written, for every address
+    byte pattern (in particular 0x2c). *)
 Theorem unjailed_codec_roundtrip : forall l : list addr, Forall wf_addr l ->
   exists bs, encode l = Some bs /\ decode bs = l.
 Proof. exact codec_roundtrip. Qed.
 Print Assumptions unjailed_codec_roundtrip.
+
+(** 5. Keep-alives from relayers older than the minimum are refused without any effect; an
+    accepted one makes the validator alive for exactly the TTL. *)
+Theorem old_relayers_refused :
+  forall (version : Type) (vlt : version -> version -> bool) (s : state version) (a : addr) (ver : version),
+  vlt ver (minver s) = true -> keep_alive vlt s a ver = (s, false).
+Proof. exact old_relayers_refused_proof. Qed.
+Print Assumptions old_relayers_refused.
+
+Theorem keep_alive_accepted :
+  forall (version : Type) (vlt : version -> version -> bool) (s s' : state version) (a : addr) (ver : version),
+  keep_alive vlt s a ver = (s', true) ->
+  vlt ver (minver s) = false /\ (exists v, find_val a (vals s) = Some v) /\
+  lookup a (alive s') = Some (height s + Gen.C12.keep_alive_ttl) /\ is_alive s' a = true /\ vals s' = vals s.
+Proof. exact keep_alive_accepted_proof. Qed.
+Print Assumptions keep_alive_accepted.
+
+(** 6. The minimum version never decreases along any history (immediate and scheduled changes),
+    for any comparison that is irreflexive and negatively transitive (a strict weak order, as
+    semver.Compare's). *)
+Theorem min_version_monotone :
+  forall (version : Type) (vlt : version -> version -> bool),
+  (forall a, vlt a a = false) ->
+  (forall a b c, vlt a b = false -> vlt b c = false -> vlt a c = false) ->
+  forall (ops : list (op version)) (s : state version), vlt (minver (run vlt ops s)) (minver s) = false.
+Proof. exact min_version_monotone_proof. Qed.
+Print Assumptions min_version_monotone.
+
+(** 7. Sentences: a successful Jail (only possible for an unjailed, unprotected validator) records
+    the sentence and jails until now + sentence; the sentence is the next table entry after the last
+    one if the last jailing is more recent than max(30 min, d + d/20), else the first entry; the table
+    is walked one entry at a time and capped at its last entry. *)
+Theorem sentence_schedule_jail :
+  forall (version : Type) (s s' : state version) (a : addr), jail s a = (s', true) ->
+  let d := match lookup a (jlog s) with
+           | Some (d0, t0) => if now s - t0 <? Z.max Gen.C12.reset_floor (d0 + Z.quot d0 Gen.C12.reset_div)
+                              then next_sentence d0 else hd 0 Gen.C12.jail_sentences
+           | None => hd 0 Gen.C12.jail_sentences
+           end in
+  lookup a (jlog s') = Some (d, now s) /\ lookup a (until s') = Some (now s + d) /\
+  (exists v, find_val a (vals s') = Some v /\ v_jailed v = true) /\
+  (exists v, find_val a (vals s) = Some v /\ v_jailed v = false /\ ~ protected (vals s) v).
+Proof. exact jail_records_proof. Qed.
+Print Assumptions sentence_schedule_jail.
+
+Theorem sentence_schedule :
+  (forall i, (i < length Gen.C12.jail_sentences)%nat ->
+     next_sentence (nth i Gen.C12.jail_sentences 0)
+     = nth (Nat.min (S i) (length Gen.C12.jail_sentences - 1)) Gen.C12.jail_sentences 0) /\
+  (forall d, In (next_sentence d) Gen.C12.jail_sentences) /\
+  (forall d, d < last Gen.C12.jail_sentences 0 -> d < next_sentence d) /\
+  (forall d, next_sentence d <= last Gen.C12.jail_sentences 0) /\
+  next_sentence 0 = hd 0 Gen.C12.jail_sentences.
+Proof. exact sentence_table_proof. Qed.
+Print Assumptions sentence_schedule.
+
+(** Ties to the translated source (break when the source changes back):
+    the writer is the separator-free encoder and the legacy reader is gated / deleted. *)
+From Coq Require Import String.
+Theorem snapshot_writer_is_separator_free :
+  Gen.C12.snapshot_encoding = "length-prefixed"%string /\
+  Gen.C12.legacy_reader_only_when_legacy_key_present = true /\
+  Gen.C12.legacy_key_deleted_on_write = true.
+Proof. exact (conj eq_refl (conj eq_refl eq_refl)). Qed.
+Print Assumptions snapshot_writer_is_separator_free.
